@@ -616,6 +616,139 @@ example :
     let f := run false 0 [[0x61, 0x62]] init [Ev.piece [], Ev.piece [0x61], Ev.piece [], Ev.piece [0x62], Ev.eos]
     f.out = [] ∧ f.done = some .stop ∧ f.numPredicted = 4 ∧ f.cause = some (.stopString [0x61, 0x62]) := by decide
 
+/-! ### 5c''. cache trimming next to TruncateStop: the inputs kept are those of the tokens streamed in full -/
+
+theorem shape_len : ∀ (res pieces : List Bytes) (t : Bool), Shape res pieces t → res.length ≤ pieces.length := by
+  intro res
+  induction res with
+  | nil => intro pieces t _; simp
+  | cons r rs ih =>
+    intro pieces t h
+    cases pieces with
+    | nil => cases rs <;> simp [Shape] at h
+    | cons p ps =>
+      cases rs with
+      | nil => simp
+      | cons r' rs' =>
+        simp only [Shape] at h
+        have := ih ps t h.2
+        simp only [List.length_cons] at this ⊢
+        omega
+
+theorem shape_trunc_nonempty (res pieces : List Bytes) (h : Shape res pieces true) : res ≠ [] := by
+  intro he; subst he; simp [Shape] at h
+
+/-- the pieces returned uncut are the original pieces at the same positions -/
+theorem shape_whole : ∀ (res pieces : List Bytes) (t : Bool), Shape res pieces t →
+    res.take (res.length - (if t then 1 else 0)) = pieces.take (res.length - (if t then 1 else 0)) := by
+  intro res
+  induction res with
+  | nil => intro pieces t _; simp
+  | cons r rs ih =>
+    intro pieces t h
+    cases pieces with
+    | nil => cases rs <;> simp [Shape] at h
+    | cons p ps =>
+      cases rs with
+      | nil =>
+        simp only [Shape] at h
+        cases t with
+        | true => simp
+        | false =>
+          have : r = p := by
+            by_cases hrp : r = p
+            · exact hrp
+            · exact absurd (h.2.mpr hrp) (by simp)
+          subst this
+          simp
+      | cons r' rs' =>
+        simp only [Shape] at h
+        have ih' := ih ps t h.2
+        have hk : (r :: r' :: rs').length - (if t then 1 else 0) =
+            ((r' :: rs').length - (if t then 1 else 0)) + 1 := by
+          cases t <;> simp
+        rw [hk, List.take_succ_cons, List.take_succ_cons, ih', h.1]
+
+/-- **Cache trimming at a stop string.**  `pieces` = `seq.pendingResponses` including the token just sampled
+    (whose input is not in the cache yet), `cached = len(seq.cache.Inputs)`; every pending piece but the last has its
+    input in the cache (`pieces.length ≤ cached + 1`).  For every pending list and every non-empty stop that occurs:
+    * `whole` = the number of pieces `TruncateStop` returns uncut, and those ARE the first `whole` original pieces;
+    * the new cache length is `cached + 1 - (pieces.length - whole)`: of the `cached + 1` tokens so far exactly the
+      ones whose text is not streamed in full are dropped — the "defense-in-depth" case (`origLen == newLen` with
+      nothing truncated) never arises;
+    * `0 ≤ tokenLen ≤ cached`: the reslice `seq.cache.Inputs[:tokenLen]` neither panics nor extends the slice, and
+      the input of the just-sampled token is never claimed. -/
+theorem cacheKeep_spec (pieces : List Bytes) (stop : Bytes) (cached idx : Nat)
+    (hstop : stop ≠ []) (hidx : indexOf stop pieces.flatten = some idx) (hc : pieces.length ≤ cached + 1) :
+    let r := truncateStop pieces stop
+    let whole := r.1.length - (if r.2 then 1 else 0)
+    r.1.take whole = pieces.take whole ∧ whole < pieces.length ∧
+    cacheKeep cached pieces.length r.1.length r.2 = (cached : Int) + 1 - ((pieces.length - whole : Nat) : Int) ∧
+    0 ≤ cacheKeep cached pieces.length r.1.length r.2 ∧
+    cacheKeep cached pieces.length r.1.length r.2 ≤ (cached : Int) := by
+  intro r whole
+  have hs : Shape r.1 pieces r.2 := (truncateStop_shape pieces stop).1 idx hidx
+  have hlen := shape_len _ _ _ hs
+  have hwhole := shape_whole _ _ _ hs
+  have hflat : r.1.flatten = pieces.flatten.take idx := truncateStop_flatten hidx
+  have hlt : idx < pieces.flatten.length := by
+    obtain ⟨⟨a, b, hab, ha⟩, _⟩ := indexOf_spec stop _ idx hidx
+    have := congrArg List.length hab
+    simp only [List.length_append] at this
+    have : stop.length ≠ 0 := fun h0 => hstop (List.eq_nil_of_length_eq_zero h0)
+    omega
+  have hcut : r.2 = true ∨ r.1.length < pieces.length := by
+    by_cases h2t : r.2 = true
+    · exact Or.inl h2t
+    by_cases h3lt : r.1.length < pieces.length
+    · exact Or.inr h3lt
+    exfalso
+    have h2 : r.2 = false := by
+      cases h : r.2 with
+      | true => exact absurd h h2t
+      | false => rfl
+    have h3 : r.1.length = pieces.length := by omega
+    have h4 := hwhole
+    rw [h2] at h4
+    simp only [Bool.false_eq_true, if_false, Nat.sub_zero] at h4
+    rw [List.take_length, h3, List.take_length] at h4
+    rw [h4] at hflat
+    have := congrArg List.length hflat
+    rw [List.length_take] at this
+    omega
+  have hne : r.2 = true → r.1.length ≥ 1 := by
+    intro h
+    have : r.1 ≠ [] := shape_trunc_nonempty r.1 pieces (h ▸ hs)
+    exact Nat.pos_of_ne_zero (fun h0 => this (List.eq_nil_of_length_eq_zero h0))
+  refine ⟨hwhole, ?_, ?_, ?_, ?_⟩
+  all_goals
+    simp only [whole, cacheKeep]
+    cases h : r.2 with
+    | true =>
+      have := hne h
+      simp only [Bool.true_or, if_true]
+      omega
+    | false =>
+      have hl : r.1.length < pieces.length := by
+        rcases hcut with h' | h'
+        · rw [h] at h'; cases h'
+        · exact h'
+      have hneq : (pieces.length == r.1.length) = false := by
+        rw [beq_eq_false_iff_ne]; omega
+      simp only [Bool.false_or, hneq, Bool.false_eq_true, if_false]
+      omega
+
+/-- non-vacuity: pending `"a" "b<" "|x"` with stop `"<|"`, 7 inputs cached: `TruncateStop` returns `"a" "b"` with the
+    second piece cut, one piece is whole, the cache keeps 6 inputs; with the stop `"b<|x"` ending on a piece boundary
+    nothing is cut and 6 are kept as well; a stop inside the first of three pending pieces drops all three tokens -/
+example :
+    truncateStop [[0x61], [0x62, 0x3c], [0x7c, 0x78]] [0x3c, 0x7c] = ([[0x61], [0x62]], true) ∧
+    cacheKeep 7 3 2 true = 6 ∧
+    truncateStop [[0x61], [0x62, 0x3c], [0x7c, 0x78]] [0x62, 0x3c, 0x7c, 0x78] = ([[0x61]], false) ∧
+    cacheKeep 7 3 1 false = 6 ∧
+    truncateStop [[0x61, 0x62], [0x63], [0x64]] [0x62, 0x63, 0x64] = ([[0x61]], true) ∧
+    cacheKeep 7 3 1 true = 5 := by decide
+
 /-! ### 5d. one level up: the `completion` HTTP handler and the client -/
 
 /-- **What the client receives.**  For the handler's lines of any finished or cancelled run: the
